@@ -7,6 +7,9 @@
 // Decided: afterwards the lexer stack is, entry by entry, the stack before; the engine is back in definitive mode; the valid-row
 // horizon, the flush position, the log override and the grammar stack are reset — nothing a later mask could see has changed.
 use super::*;
+// explicit imports: the harness must not depend on which names the real module happens to import
+#[allow(unused_imports)]
+use crate::earley::ParserStats;
 
 macro_rules! item_trace {
     ($($t:tt)*) => {};
